@@ -16,10 +16,10 @@ type fmtCall struct {
 	site   *ssa.Call // the call instruction in the analysed function (the fmt call itself, or the call of the helper that contains it)
 	sy     *symb     // renders operands in terms of the analysed function (helper parameters substituted)
 	call   *ssa.Call
-	fn     string     // Fprintf, Fprint, Fprintln
-	w      ssa.Value  // destination
-	format *string    // constant format, if constant (Fprintf only)
-	fmtVal ssa.Value  // the format operand
+	fn     string      // Fprintf, Fprint, Fprintln
+	w      ssa.Value   // destination
+	format *string     // constant format, if constant (Fprintf only)
+	fmtVal ssa.Value   // the format operand
 	args   []ssa.Value // operand values (MakeInterface unwrapped)
 }
 
